@@ -14,6 +14,19 @@ Definition is_real it := match it with TLabel _ => false | _ => true end.
 Definition mode_ok (f:label) (m:mode) : Prop :=
   match m with Seek l => l < f | Skip k => k = 0 end.
 
+Lemma relax_fresh_mono its f : f <= snd (relax its f).
+Proof.
+  revert f. induction its as [|it r IH]; intros f; simpl; [lia|].
+  specialize (IH f). destruct (relax r f) as [r' f'] eqn:E. simpl in IH.
+  destruct it; simpl; try lia.
+  unfold fix_jump.
+  destruct (far (dist tl r') || is255 (dist tl r') && far (dist fl r')),
+           (far (dist fl r') || is255 (dist fl r') && far (dist tl r')); simpl; lia.
+Qed.
+
+Lemma below_tail f it r : below f (it :: r) -> below f r.
+Proof. intros Hb x l Hx Hl. eapply Hb; [right; exact Hx|exact Hl]. Qed.
+
 Section Proofs.
 Variable ld : N -> option N.
 Notation exec := (exec ld).
@@ -109,19 +122,6 @@ Proof.
     + simpl in Hm. rewrite !exec_real_seek by reflexivity.
       rewrite exec_label_seek, (Nf l Hm). rewrite exec_real_seek by apply tramp_real. reflexivity.
 Qed.
-
-Lemma relax_fresh_mono its f : f <= snd (relax its f).
-Proof.
-  revert f. induction its as [|it r IH]; intros f; simpl; [lia|].
-  specialize (IH f). destruct (relax r f) as [r' f'] eqn:E. simpl in IH.
-  destruct it; simpl; try lia.
-  unfold fix_jump.
-  destruct (far (dist tl r') || is255 (dist tl r') && far (dist fl r')),
-           (far (dist fl r') || is255 (dist fl r') && far (dist tl r')); simpl; lia.
-Qed.
-
-Lemma below_tail f it r : below f (it :: r) -> below f r.
-Proof. intros Hb x l Hx Hl. eapply Hb; [right; exact Hx|exact Hl]. Qed.
 
 Lemma relax_exec its : forall f m a,
   below f its -> mode_ok f m ->
@@ -260,3 +260,144 @@ Proof.
   replace (N.pred (N.of_nat (S (length x)))) with (N.of_nat (length x)) by lia. apply IH.
 Qed.
 End RunFacts.
+
+(** ** Reach: after [relax] every conditional branch whose label exists is within 255 *)
+Definition nearq (d:option N) : Prop := match d with Some n => n <= 255 | None => True end.
+Fixpoint reach_ok (its:list item) : Prop :=
+  match its with
+  | [] => True
+  | TJmpIf _ _ tl fl :: r => nearq (dist tl r) /\ nearq (dist fl r) /\ reach_ok r
+  | _ :: r => reach_ok r
+  end.
+
+Lemma reach_tramp l r x : reach_ok x -> reach_ok (tramp l r :: x).
+Proof. unfold tramp. destruct (at_label l r) as [[]|]; simpl; auto. Qed.
+
+Lemma dist_tramp l0 l r x : dist l0 (tramp l r :: x) = option_map N.succ (dist l0 x).
+Proof. unfold tramp. destruct (at_label l r) as [[]|]; reflexivity. Qed.
+
+Lemma tramp_cases l r : (exists v, tramp l r = TRet v) \/ tramp l r = TJaL l.
+Proof. unfold tramp. destruct (at_label l r) as [[]|]; eauto. Qed.
+
+Lemma fix_jump_reach c k tl fl r f :
+  tl < f -> fl < f -> reach_ok r -> reach_ok (fst (fix_jump c k tl fl r f)).
+Proof.
+  intros Ht Hf Hr. unfold fix_jump.
+  assert (Nt: (f =? tl) = false) by (apply N.eqb_neq; lia).
+  assert (Nfl: (f =? fl) = false) by (apply N.eqb_neq; lia).
+  destruct (tramp_cases tl r) as [[vt Et]|Et], (tramp_cases fl r) as [[vf Ef]|Ef]; rewrite ?Et, ?Ef.
+  all: destruct (dist tl r) as [dt|] eqn:Dt, (dist fl r) as [df|] eqn:Df; simpl far; simpl is255; cbn [orb andb].
+  all: repeat match goal with |- context[?a <? ?b] => destruct (N.ltb_spec a b) end;
+       repeat match goal with |- context[?a =? 255] => destruct (N.eqb_spec a 255) end;
+       cbn [orb andb fst]; cbn [reach_ok dist]; rewrite ?N.eqb_refl, ?Nt, ?Nfl, ?dist_tramp;
+       cbn [dist]; rewrite ?N.eqb_refl, ?Nt, ?Nfl, ?dist_tramp, ?Dt, ?Df;
+       replace (f =? f + 1) with false by (symmetry; apply N.eqb_neq; lia);
+       cbn [option_map nearq]; rewrite ?N.eqb_refl; cbn [option_map nearq];
+       repeat split; try lia; try exact I; try (apply reach_tramp; try apply reach_tramp; assumption); try assumption.
+Qed.
+
+Lemma relax_reach its : forall f, below f its -> reach_ok (fst (relax its f)).
+Proof.
+  induction its as [|it r IH]; intros f Hb; [exact I|]. cbn [relax].
+  pose proof (below_tail _ _ _ Hb) as Hbr.
+  pose proof (relax_fresh_mono r f) as Hmono.
+  specialize (IH f Hbr).
+  destruct (relax r f) as [r' f'] eqn:E. cbn [fst snd] in *.
+  destruct it; cbn [fst reach_ok]; try exact IH.
+  apply fix_jump_reach; [| |exact IH].
+  - assert (tl < f) by (eapply Hb; [left; reflexivity|simpl; auto]). lia.
+  - assert (fl < f) by (eapply Hb; [left; reflexivity|simpl; auto]). lia.
+Qed.
+
+Lemma reach_no_out_of_reach its : reach_ok its -> check_jumps its <> Some EOutOfReach.
+Proof.
+  induction its as [|it r IH]; intros H; cbn [check_jumps]; [discriminate|].
+  destruct it; cbn [reach_ok] in H; try (apply IH; exact H).
+  destruct H as (H1 & H2 & H3).
+  destruct (dist tl r) as [dt|]; [|discriminate].
+  destruct (dist fl r) as [df|]; [|discriminate].
+  cbn [nearq] in H1, H2.
+  replace (255 <? dt) with false by (symmetry; apply N.ltb_ge; lia).
+  replace (255 <? df) with false by (symmetry; apply N.ltb_ge; lia).
+  cbn [orb]. destruct ((dt =? 0) && (df =? 0)); [discriminate|]. apply IH; exact H3.
+Qed.
+
+(** Assemble never reports "jump destination out of reach": the bridges always suffice. *)
+Theorem assemble_never_out_of_reach its f : below f its -> assemble its f <> Error EOutOfReach.
+Proof.
+  intros Hb. unfold assemble.
+  destruct (negb (jumps_resolvable its)); [discriminate|].
+  pose proof (reach_no_out_of_reach _ (relax_reach its f Hb)) as H.
+  destruct (check_jumps (fst (relax its f))) as [e|]; [intro E; injection E as ->; congruence|].
+  destruct (resolve (fst (relax its f))); discriminate.
+Qed.
+
+(** ** The builder: labels of a program all come from NewLabel *)
+Definition bop_labels (o:bop) : list label :=
+  match o with
+  | BJmpIf _ _ tl fl => [tl; fl] | BJmpIfTrue _ _ tl => [tl] | BJmp l => [l] | BSetLabel l => [l]
+  | _ => []
+  end.
+
+(** every label a call mentions is smaller than the counter [n] *)
+Definition ops_below (n:label) (ops:list bop) : Prop := forall o l, In o ops -> In l (bop_labels o) -> l < n.
+
+Lemma items_of_mono le rw ops : forall n, n <= snd (items_of le rw ops n).
+Proof.
+  induction ops as [|o rest IH]; intros n; cbn [items_of]; [simpl; lia|].
+  destruct o; try (specialize (IH n); destruct (items_of le rw rest n); cbn [snd] in *; lia).
+  - specialize (IH (n+1)). lia.
+  - specialize (IH (n+1)). destruct (items_of le rw rest (n+1)); cbn [snd] in *; lia.
+Qed.
+
+Lemma items_of_below le rw ops : forall n f,
+  ops_below f ops -> snd (items_of le rw ops n) <= f -> below f (fst (items_of le rw ops n)).
+Proof.
+  induction ops as [|o rest IH]; intros n f Ho Hn; cbn [items_of].
+  - intros it lb [].
+  - assert (Hrest: ops_below f rest) by (intros o' l' H1 H2; eapply Ho; [right; exact H1|exact H2]).
+    assert (Hhere: forall l, In l (bop_labels o) -> l < f) by (intros l H; eapply Ho; [left; reflexivity|exact H]).
+    cbn [items_of] in Hn.
+    destruct o.
+    + apply IH; assumption.
+    + specialize (IH n f Hrest). destruct (items_of le rw rest n) as [r m]. cbn [fst snd] in *.
+      intros it lb [<-|Hi] Hl; [apply Hhere; exact Hl| eapply IH; eauto].
+    + pose proof (items_of_mono le rw rest (n+1)) as Hm.
+      specialize (IH (n+1) f Hrest). destruct (items_of le rw rest (n+1)) as [r m]. cbn [fst snd] in *.
+      intros it lb [<-|[<-|Hi]] Hl.
+      * simpl in Hl. destruct Hl as [<-|[<-|[]]]; [apply Hhere; simpl; auto|lia].
+      * simpl in Hl. destruct Hl as [<-|[]]. lia.
+      * eapply IH; eauto.
+    + specialize (IH n f Hrest). destruct (items_of le rw rest n) as [r m]. cbn [fst snd] in *.
+      intros it lb [<-|Hi] Hl; [apply Hhere; exact Hl| eapply IH; eauto].
+    + specialize (IH n f Hrest). destruct (items_of le rw rest n) as [r m]. cbn [fst snd] in *.
+      intros it lb [<-|Hi] Hl; [apply Hhere; exact Hl| eapply IH; eauto].
+    + specialize (IH n f Hrest). destruct (items_of le rw rest n) as [r m]. cbn [fst snd] in *.
+      intros it lb [<-|Hi] Hl; [destruct Hl| eapply IH; eauto].
+    + specialize (IH n f Hrest). destruct (items_of le rw rest n) as [r m]. cbn [fst snd] in *.
+      intros it lb [<-|Hi] Hl; [destruct Hl| eapply IH; eauto].
+    + specialize (IH n f Hrest). destruct (items_of le rw rest n) as [r m]. cbn [fst snd] in *.
+      intros it lb [<-|Hi] Hl; [destruct Hl| eapply IH; eauto].
+Qed.
+
+(** The builder theorem: whatever the calls were (any order, any distances, labels set twice or never),
+    if Assemble succeeds, the instruction list behaves like the label-level program on every load function
+    (i.e. every event and byte order) and every initial accumulator. *)
+Theorem build_correct le rw ops p :
+  ops_below (snd (items_of le rw ops 2)) ops ->
+  build le rw ops = Ok p ->
+  forall ld a, run ld p 0 a = exec ld (fst (items_of le rw ops 2)) (Skip 0) a.
+Proof.
+  intros Ho Hb ld a. unfold build in Hb.
+  pose proof (items_of_below le rw ops 2 _ Ho (N.le_refl _)) as Hbelow.
+  destruct (items_of le rw ops 2) as [its n]. cbn [fst snd] in *.
+  eapply assemble_correct; eauto.
+Qed.
+
+Definition ops_belowb (n:label) (ops:list bop) : bool :=
+  forallb (fun o => forallb (fun l => l <? n) (bop_labels o)) ops.
+Lemma ops_belowb_spec n ops : ops_belowb n ops = true -> ops_below n ops.
+Proof.
+  unfold ops_belowb, ops_below. rewrite forallb_forall. intros H o l Ho Hl.
+  specialize (H o Ho). rewrite forallb_forall in H. apply N.ltb_lt. apply H. exact Hl.
+Qed.
